@@ -146,6 +146,8 @@ func (bw *BatchedWriter) Enqueue(object BatchWriteObject) {
 		return
 	}
 
+	verifEnqueueYield()
+
 	// queue object
 	bw.scheduledCount.Add(1)
 	bw.batchQueue <- object
